@@ -255,6 +255,73 @@ fn run_case<const H: usize>(rep: &mut Report, args: &Args, case: Case, flips_bud
         }
     }
 
+    // ---- 1b. growing log: every record is read as the TAIL of the flushed log ------
+    // A long-lived reader sharing the writer's flushed offset reads each record sequentially right after the
+    // sync that flushed it (so the read ends exactly at the flushed offset, whatever the read-ahead window holds),
+    // and a second long-lived reader iterates the whole flushed log after every sync.
+    {
+        let gpath = args.work.join(format!("c17g-{}-{}.log", args.shard, case.seed));
+        let _ = std::fs::remove_file(&gpath);
+        let mut sizes_g: Vec<usize> = vec![case.size, 0, rng.usize_below(300), case.size];
+        if rng.below(4) == 0 {
+            sizes_g.push(65_536 + rng.usize_below(9000));
+            sizes_g.push(0);
+        }
+        if rng.below(3) == 0 {
+            // a run of small records that walks a record boundary across the 64 KiB read-ahead window end
+            sizes_g.push(65_536usize.saturating_sub(2 * case.size + 600).max(1));
+            for _ in 0..6 {
+                sizes_g.push(rng.usize_below(200));
+            }
+        }
+        rng.shuffle(&mut sizes_g);
+        let total: usize = sizes_g.iter().map(|n| n + RECORD_HEAD_SIZE + H + 8).sum();
+        let gseg = (case.start as usize + total + 4096).max(8192);
+        let mut w = Writer::<H>::create(&gpath, gseg, case.start).expect("create g");
+        if case.compression {
+            w.enable_compression();
+        }
+        let fl = w.flushed_offset();
+        let mut tail_rd = Reader::<H>::open(&gpath, Some(fl.clone())).unwrap();
+        let mut iter_rd = Reader::<H>::open(&gpath, Some(fl.clone())).unwrap();
+        let mut written: Vec<Rec> = Vec::new();
+        for (k, n) in sizes_g.iter().enumerate() {
+            let data = make_data(&mut rng, *n, if k % 2 == 0 { case.content } else { "random" });
+            let h = hdr(&mut rng);
+            let (off, len) = w.append(&h, &data).expect("append g");
+            w.sync().expect("sync g");
+            let want = Rec { off, len, header: h.to_vec(), data };
+            cx.rep.evaluations += 1;
+            cx.rep.count("tail_reads_right_after_sync", 1);
+            match read_one::<H>(&mut tail_rd, off, ReadHint::Sequential) {
+                Got::Ok(got) if got == want => {}
+                other => cx.viol("C17:roundtrip:sequential:tail-record-of-flushed-log".into(), format!("sequential read by a long-lived reader of the intact last flushed record ({} data bytes at {off}, record {k} of the log) differs: {}", n, short(&other)), json!("none")),
+            }
+            written.push(want);
+            let got_all = std::panic::catch_unwind(std::panic::AssertUnwindSafe(|| {
+                let mut it = iter_rd.iter(case.start);
+                let mut v = Vec::new();
+                loop {
+                    match it.next_record() {
+                        Ok(Some(rec)) => v.push(Rec { off: rec.offset, len: rec.len, header: rec.header.to_vec(), data: rec.data.to_vec() }),
+                        Ok(None) => return (v, "end".to_string()),
+                        Err(e) => return (v, format!("err:{}", err_class(&e))),
+                    }
+                    if v.len() > 64 {
+                        return (v, "runaway".to_string());
+                    }
+                }
+            }));
+            let (recs, endk) = got_all.unwrap_or_else(|_| (Vec::new(), format!("panic:{}", vpc::last_panic())));
+            cx.rep.count("iterations_of_growing_flushed_log", 1);
+            if recs != written || endk != "end" {
+                cx.viol("C17:roundtrip:iterate:growing-flushed-log".into(), format!("iteration of the flushed log by a long-lived reader after record {k} yielded {} of {} records and ended {endk}", recs.len(), written.len()), json!("none"));
+            }
+        }
+        drop(w);
+        let _ = std::fs::remove_file(&gpath);
+    }
+
     // ---- 2. bit flips and bursts inside R -----------------------------------------
     let rbits = cx.r.len as u64 * 8;
     let mut rr = Reader::<H>::open(&path, None).unwrap(); // long-lived, random reads only
